@@ -94,8 +94,30 @@ class Repo:
         self.modules: Dict[str, Module] = {}
         self._digest = hashlib.sha256()
         self._load()
+        if os.environ.get("VERIF_FLATTEN", "0") == "1":  # experiment switch: flatten every function (not used by the checks)
+            self._flatten_all()
 
     # ------------------------------------------------------------------ loading
+    def _flatten_all(self) -> None:
+        """Replace every function by its flattened version (sa/flatten.py): local helper calls inlined, computed from the original nodes."""
+        from sa.flatten import flatten
+
+        new: Dict[Tuple[str, str], Function] = {}
+        for mn, mod in self.modules.items():
+            for q, fn in mod.functions.items():
+                try:
+                    f2 = flatten(fn)
+                except RecursionError:
+                    f2 = fn
+                if f2 is not fn:
+                    new[(mn, q)] = f2
+        for (mn, q), f2 in new.items():
+            mod = self.modules[mn]
+            mod.functions[q] = f2
+            if f2.cls is not None and f2.cls.methods.get(f2.name) is not None and f2.cls.methods[f2.name].qualname == q:
+                f2.cls.methods[f2.name] = f2
+        self.flattened = len(new)
+
     def _load(self) -> None:
         for dirpath, dirnames, filenames in os.walk(self.pkg_dir):
             dirnames[:] = sorted(d for d in dirnames if d != "__pycache__")
@@ -266,6 +288,12 @@ class Repo:
 
 
 # ---------------------------------------------------------------------- small AST helpers
+def set_parents(root: ast.AST) -> None:
+    for n in ast.walk(root):
+        for ch in ast.iter_child_nodes(n):
+            ch._parent = n  # type: ignore[attr-defined]
+
+
 def parent(node: ast.AST) -> Optional[ast.AST]:
     return getattr(node, "_parent", None)
 
